@@ -45,6 +45,7 @@ OP == ProcOf(T)
 OE == T.ended
 Checks == <<
   <<"NoRaise", NoRaise(OE)>>,
+  <<"Terminates", Terminates(OE)>>,
   <<"OneOfSix", OneOfSix(OP, OE)>>,
   <<"Accounted", Accounted(T.req, OL, OP, OE)>>,
   <<"PutAtMostOnce", PutAtMostOnce(OL)>>,
